@@ -116,15 +116,27 @@ func (d *drv) open(valid bool, variant int) *wire.Open {
 		o.HoldTime = 3
 	}
 	if !valid {
-		if variant%2 == 0 {
+		// which check fails varies with the position in the sequence and with the case
+		h := variant
+		for _, e := range d.c.Events {
+			h = h*31 + len(e) + len(d.c.Prelude)
+		}
+		switch (h%5 + 5) % 5 {
+		case 0:
 			o.AS = 64999
 			for i := range o.Caps {
 				if o.Caps[i].Code == wire.CapCodeAS4 {
 					o.Caps[i] = wire.CapAS4(64999)
 				}
 			}
-		} else {
+		case 1:
 			o.Version = 3
+		case 2:
+			o.HoldTime = 2 // RFC 4271 section 4.2: hold times of one and two seconds must be rejected
+		case 3:
+			o.HoldTime = 1
+		default:
+			o.ID = 0
 		}
 	}
 	return o
